@@ -137,9 +137,19 @@ Print Assumptions C07_source_delete.
 Theorem C07_source_expire_all : forall start cnt,
   (run_expire_all_body fn_shardedMap_ExpireAll start cnt = Some ([("store", [VStr "v.E"; VZ start])], Some (VZ (cnt + 1))) /\
    run_expire_all_body fn_shardedMapOf_ExpireAll start cnt = Some ([("store", [VStr "v.E"; VZ start])], Some (VZ (cnt + 1)))) /\
-  run_expire_all_sync start cnt = Some ([("store", [VStr "cacheEntry.E"; VZ start])], Some (VZ (cnt + 1)), true).
+  run_expire_all_sync start cnt =
+    Some ([("expireEntry", [VPtr true "key"; VPtr true "entry"; VZ start])], Some (VZ (cnt + 1)), true).
 Proof. intros; split; [exact (tie_expire_all_sharded _ _)|exact (tie_expire_all_sync _ _)]. Qed.
 Print Assumptions C07_source_expire_all.
+
+(* SyncMap (go1.20+): an entry is expired by replacing it, CompareAndSwap against the entry Range handed out, with a
+   copy that differs in E only *)
+Theorem C07_source_sync_expire_entry : forall ts c,
+  run_expire_entry ts c =
+  Some [("CompareAndSwap", [VPtr true "key"; VPtr true "e";
+                            VRec "TraitEntry" [("K", VPtr true "K"); ("V", VPtr true "V"); ("E", VZ ts); ("C", VZ c)]])].
+Proof. exact tie_sync_expire_entry. Qed.
+Print Assumptions C07_source_sync_expire_entry.
 
 From Cache Require Import TieTransfer TieDefaults.
 
